@@ -275,6 +275,28 @@ def check(ctx):
                 samples.append({"patterns": sc["patterns"], "flags": flags, "kinds": sc["kinds"], "prior": sc["prior"], "exit": rc, "files": sorted(after), "model": model})
             for r in ("m", "ref", "red"):
                 shutil.rmtree(os.path.join(scratch, r), ignore_errors=True)
+        # ---- two packages whose import paths map to the same Coq path ('-', '.' and '_' all become '_'): one output file cannot hold
+        #      both translations; the command must say so (non-zero exit) instead of silently keeping one
+        fn2 = "func %s() uint64 {\n\treturn 1\n}\n"
+        col = {"a-b": {"f.go": "package ab\n\n" + fn2 % "Dash"}, "a_b": {"f.go": "package a_b\n\n" + fn2 % "Under"}, "a.b": {"f.go": "package ab\n\n" + fn2 % "Dot"}}
+        root = os.path.join(scratch, "col")
+        gomod.write_module(root, col)
+        rc, out, err = gomod.run_goose(root, [], ["./..."], out=os.path.join(root, "Goose"))
+        t = gomod.tree(os.path.join(root, "Goose"))
+        stats["colliding_path_scenarios"] += 1
+        if rc == 0 and len(t) < len(col) and not found:
+            found = True
+            ctx.violation("counterexample", "goose command: packages whose Coq paths coincide overwrite each other's output and the command exits 0",
+                          {"proto": "cli-cmd", "packages": col, "patterns": ["./..."]}, expected="one file per translated package, or a non-zero exit status that reports the collision",
+                          observed={"exit": rc, "files": sorted(t), "definitions": sorted(re.findall(r"^Definition (\w+):", "".join(v[0].decode() for v in t.values()), re.M))})
+        if build.driver_ok and not found:
+            mline = "cmd 0 0 " + " ".join("example.com/m/%s 0 a" % d for d in sorted(col))
+            mo = C.driver("cli", [mline])[0].split()
+            m_written = set() if mo[3] == "-" else set(mo[3].split(","))
+            if (int(mo[1]) == 0) != (rc == 0) or m_written != set(t):
+                build.broken.append({"kind": "correspondence", "name": "cli: Lean Cmd.run vs cmd/goose (colliding output paths)",
+                                     "detail": "model `%s` vs exit %d files %s" % (" ".join(mo), rc, sorted(t))})
+        shutil.rmtree(root, ignore_errors=True)
         # ---- a module whose path has a single element, and files selected by other build constraints than `goose`
         fn = "func %s() uint64 {\n\treturn 1\n}\n"
         one = {"": {"r.go": "package m\n\n" + fn % "Root"},
